@@ -35,6 +35,12 @@ def txn_schedules():
     S.append(('push-and-pop-all-inside-exec', [('open', 1), ('open', 2), ('send', 1, B('BLPOP', 'q', '0.4')), ('sync',), ('call', 2, B('MULTI')), ('call', 2, B('RPUSH', 'q', 'x')),
                                                ('call', 2, B('LPOP', 'q')), ('call', 2, B('LLEN', 'q')), ('call', 2, B('EXEC')), ('sync',), ('pump', 1, 1500),
                                                ('call', 2, B('LLEN', 'q'))]))
+    # blocking pops QUEUED in a transaction never block, whatever their time-out: a nil in their slot when there is nothing to pop
+    S.append(('blocking-pops-queued-on-empty-lists', [('open', 1), ('open', 2), ('call', 1, B('MULTI')), ('call', 1, B('BLPOP', 'nolist', 0)), ('call', 1, B('SET', 'a', 1)),
+                                                      ('call', 1, B('BRPOP', 'nolist', 'nolist2', 0)), ('call', 1, B('INCR', 'a')), ('call', 1, B('EXEC'), 4.0), ('call', 1, B('GET', 'a')),
+                                                      ('call', 2, B('RPUSH', 'nolist', 'late')), ('sync',), ('pump', 1, 200), ('call', 2, B('LRANGE', 'nolist', 0, -1)), ('call', 1, B('PING'))]))
+    S.append(('blocking-pops-queued-pipelined', [('open', 1), ('open', 2), ('send', 1, B('MULTI'), B('BLPOP', 'nolist', 0), B('RPUSH', 'l', 'x'), B('BLPOP', 'l', 'nolist', 0), B('BRPOP', 'l', 0),
+                                                  B('EXEC'), B('ECHO', 'behind')), ('pump', 1, 4000), ('call', 2, B('LRANGE', 'l', 0, -1))]))
     import luadsl as L
     prog = [L.call([L.arg_lit(b'RPUSH'), L.arg_key(1), L.arg_lit(b'x')]), L.call([L.arg_lit(b'RPUSH'), L.arg_key(1), L.arg_lit(b'y')]),
             L.call([L.arg_lit(b'LRANGE'), L.arg_key(1), L.arg_lit(b'0'), L.arg_lit(b'-1')], ret=1)]
@@ -219,7 +225,7 @@ def run_schedule(ctx, srv, name, steps, tr):
                     run.send(st[1], *st[2:])
             elif op == 'call':
                 if st[1] in run.cl:
-                    run.call(st[1], st[2])
+                    run.call(st[1], st[2], *(st[3:4]))
             elif op == 'eval':
                 import luadsl as L
                 src = L.render(st[2])
@@ -267,6 +273,9 @@ def run(ctx):
     srv = ctx.new_server()
     n = 0
     for name, steps in directed():
+        # every schedule starts on a server process of its own: counters and caches that an earlier schedule has pushed out of
+        # range (and thereby made harmless) would otherwise hide what this one is about
+        srv.restart()
         tr = ctx.new_trace('blk-' + name)
         run_schedule(ctx, srv, name, steps, tr)
         ctx.validate(tr, label='blk-' + name)
@@ -274,6 +283,7 @@ def run(ctx):
         if not srv.alive():
             srv.restart()
     for i in range(8 if ctx.quick else 80):
+        srv.restart()
         tr = ctx.new_trace('blk-rand%d' % i)
         run_schedule(ctx, srv, 'rand%d' % i, random_schedule(ctx.rnd, 25 if ctx.quick else 60), tr)
         ctx.validate(tr, label='blk-rand%d' % i)
